@@ -158,7 +158,7 @@ def strategy(tier):
 
 
 def _enum_strategy(tier):
-    base = c07_pack.strategy(tier)
+    base = c07_pack.graph_strategy(tier)
 
     def fix(case):
         prog = [op for op in case['prog'] if op[0] != 'pack']
